@@ -1064,8 +1064,10 @@ func (c *Client) MkdirAll(path string) error {
 // An error will be returned if no file or directory with the specified path exists
 func (c *Client) RemoveAll(path string) error {
 
-	// Get the file/directory information
-	fi, err := c.Stat(path)
+	// Get the file/directory information.
+	// Lstat, not Stat: like os.RemoveAll, a symbolic link is removed itself,
+	// its target (and what the target contains) is left alone.
+	fi, err := c.Lstat(path)
 	if err != nil {
 		return err
 	}
